@@ -24,8 +24,7 @@ Open Scope N_scope.
 Record cfg := {
   c_factor : N;             (* Options.partition_combine_factor *)
   c_max_wal_files : N;      (* Options.max_wal_files *)
-  c_max_wal_bytes : N;      (* Options.max_wal_size_bytes *)
-  c_seed : name             (* the literal Table::new seeds _meta_columns_* tables with *)
+  c_max_wal_bytes : N       (* Options.max_wal_size_bytes *)
 }.
 
 Record segment := { sg_bytes : N; sg_data : batch }.
@@ -168,7 +167,7 @@ Fixpoint apply_batch (b : batch) (l : list (name * tstate)) : res (list (name * 
 Definition ingest (c : cfg) (b : batch) (bytes : N) (s : db) : res db :=
   if c_max_wal_bytes c <? wal_size s then Blocked
   else
-    do (l1, created, colrows) <- prepare (c_seed c) b (tabs s) [] [];
+    do (l1, created, colrows) <- prepare code_seed b (tabs s) [] [];
     let full := b ++ meta_tables_batch created ++ colrows in
     do l2 <- apply_batch full l1;
     Val {| tabs := l2; next_wal := next_wal s + 1; earliest := earliest s;
@@ -338,9 +337,9 @@ Definition recover (c : cfg) (s : db) : res db :=
   let keep := sort_segs (filter (fun x => cursor <=? fst x) (d_wal s)) in
   let next := fold_left (fun a x => N.max a (fst x + 1)) keep cursor in
   let size := fold_left (fun a x => a + sg_bytes (snd x)) keep 0 in
-  do l0 <- restore_tables (c_seed c) (tabs s);
-  let '(l1, _) := create_if_empty (c_seed c) s_meta_tables l0 in
-  do l2 <- replay (c_seed c) keep None l1;
+  do l0 <- restore_tables code_seed (tabs s);
+  let '(l1, _) := create_if_empty code_seed s_meta_tables l0 in
+  do l2 <- replay code_seed keep None l1;
   Val {| tabs := l2; next_wal := next; earliest := cursor; wal_size := size;
          d_cursor := d_cursor s; d_wal := keep; acked := acked s |}.
 
@@ -369,7 +368,7 @@ Fixpoint run (guard : bool) (c : cfg) (ops : list op) (s : db) : res db :=
 
 (* a fresh directory: InnerLocustDB::new creates _meta_tables *)
 Definition init (c : cfg) : db :=
-  {| tabs := [(s_meta_tables, empty_table (seed_cols (c_seed c) s_meta_tables (Some [])))];
+  {| tabs := [(s_meta_tables, empty_table (seed_cols code_seed s_meta_tables (Some [])))];
      next_wal := 0; earliest := 0; wal_size := 0; d_cursor := None; d_wal := []; acked := [] |}.
 
 (* the acknowledged rows of table n *)
